@@ -80,6 +80,10 @@ def extend_contract(I, st, tag='extend'):
             I.oblige("%s/pre/%s/map-keys-are-atoms-of-other" % (ctx.speckey, tag), AM.all_in_range(keys, 0, NB, 'pmkr'), 'pre')
             I.oblige("%s/pre/%s/map-values-are-atoms-of-self" % (ctx.speckey, tag), AM.all_in_range(vals, 0, N, 'pmvr'), 'pre')
             memV = mem_of(I, vals)
+        # caller-side lemmas about the map (each an obligation of the caller, then a hypothesis); the contract itself adds nothing here
+        cb = st.get('extend_lemmas')
+        if cb is not None and keys is not None:
+            cb(ctx, hs, ho, keys, vals, mem_of(I, keys), memV)
         # ---- ensures (assumed: proved in C11)
         I.reg.assumptions_used.add("contract of Atoms.extend (proved in C11.prove_extend): existing atoms keep position / charge / group, only mapped atoms "
                                    "change type, terms refer to existing atoms, sizes consistent, other and (explicit offsets) the tables untouched")
@@ -106,8 +110,35 @@ def extend_contract(I, st, tag='extend'):
             new[k + '_types'] = fresh_like_seq(I, hs[k + '_types'], 'ext_%s_types' % k, nk)
             new['extra_%s_fields' % k] = fresh_like_seq(I, hs['extra_%s_fields' % k], 'ext_x%s' % k, nk)
             I.assume(AM.all_in_range(new[pl], 0, N + mA, I.reg.fresh('er_' + k)))
+        # the appended atoms are the atoms of `other` that are not keys of the map (filter comprehension `atoms_to_add`), in order, with the other's
+        # position / charge / group and type id + offset; a mapped atom takes the type id + offset of the atom mapped onto it  (C11: post/atoms/...)
+        off0 = to_z3(offsets[0])
+        A = SymSeq(mA, [z3.Array(I.reg.fresh('unmapped'), INT, INT)], None, 'list', 'unmapped')
+        pj = z3.Int(I.reg.fresh('ej'))
+        memK = mem_of(I, keys) if keys is not None else (lambda x: z3.BoolVal(False))
+        a0 = A.cols[0]
+        in_A = z3.And(z3.Select(a0, pj) >= 0, z3.Select(a0, pj) < NB, z3.Not(memK(z3.Select(a0, pj))))
+        I.assume(z3.ForAll([pj], z3.Implies(z3.And(pj >= 0, pj < mA), in_A), patterns=[z3.Select(a0, pj)]))
+        I.assume(z3.Implies(mA > 0, z3.substitute(in_A, (pj, z3.IntVal(0)))))
+        app = []
+        for fld in ('positions', 'charges', 'groups'):
+            app += [z3.Select(cn, N + pj) == z3.Select(co, z3.Select(a0, pj)) for cn, co in zip(new[fld].cols, ho[fld].cols)]
+        app.append(z3.Select(new['atom_types'].cols[0], N + pj) == z3.Select(ho['atom_types'].cols[0], z3.Select(a0, pj)) + off0)
+        I.assume(z3.ForAll([pj], z3.Implies(z3.And(pj >= 0, pj < mA), z3.And(*app)), patterns=[z3.Select(a0, pj)]))
+        if keys is not None:
+            witV = z3.Function(I.reg.fresh('wit_vals'), INT, INT)
+            I.assume(z3.ForAll([pj], z3.Implies(z3.And(pj >= 0, pj < vals.length), witV(z3.Select(vals.cols[0], pj)) == pj), patterns=[z3.Select(vals.cols[0], pj)]))
+            I.assume(z3.ForAll([s], z3.Implies(z3.And(s >= 0, s < N, memV(s)), z3.And(witV(s) >= 0, witV(s) < vals.length, z3.Select(vals.cols[0], witV(s)) == s,
+                     z3.Select(new['atom_types'].cols[0], s) == z3.Select(ho['atom_types'].cols[0], z3.Select(keys.cols[0], witV(s))) + off0)),
+                     patterns=[z3.Select(new['atom_types'].cols[0], s)]))
+        # a kind of term that `other` does not have is left exactly as it was  (C11: post/<kind>/untouched-when-other-has-none)
+        for k, w in AM.KINDS:
+            for fld in (AM.PLURAL[k], k + '_types', 'extra_%s_fields' % k):
+                nf, of = new[fld], hs[fld]
+                I.assume(z3.Implies(ho[AM.PLURAL[k]].length == 0, z3.And(nf.length == of.length, z3.ForAll([pj], z3.Implies(z3.And(pj >= 0, pj < of.length),
+                         z3.And(*[z3.Select(cn, pj) == z3.Select(co, pj) for cn, co in zip(nf.cols, of.cols)])), patterns=[z3.Select(nf.cols[0], pj)]))))
         hs.update(new)
-        st.setdefault('extend_calls', []).append(dict(N=N, mA=mA, memV=memV, keys=keys, vals=vals))
+        st.setdefault('extend_calls', []).append(dict(N=N, mA=mA, memV=memV, keys=keys, vals=vals, unmapped=A))
         return None
     return model
 
@@ -149,6 +180,12 @@ def delitem_contract(I, st, tag='__delitem__'):
             hs[k + '_types'] = fresh_like_seq(I, old[k + '_types'], 'del_%s_types' % k, nk)
             hs['extra_%s_fields' % k] = fresh_like_seq(I, old['extra_%s_fields' % k], 'del_x%s' % k, nk)
             I.assume(AM.all_in_range(hs[pl], 0, mI, I.reg.fresh('dr_' + k)))
+        # corollary (C10: post/empty-index-list-changes-nothing/<field>): an empty index list leaves every array as it was
+        pe = z3.Int(I.reg.fresh('de'))
+        for fld in PER_ATOM + tuple(x for k, _ in AM.KINDS for x in (AM.PLURAL[k], k + '_types', 'extra_%s_fields' % k)):
+            nf, of = hs[fld], old[fld]
+            I.assume(z3.Implies(idx.length == 0, z3.And(nf.length == of.length, z3.ForAll([pe], z3.Implies(z3.And(pe >= 0, pe < of.length),
+                     z3.And(*[z3.Select(cn, pe) == z3.Select(co, pe) for cn, co in zip(nf.cols, of.cols)])), patterns=[z3.Select(nf.cols[0], pe)]))))
         st['delitem'] = dict(N=N, idx=idx, m=mI, src=srcI, dst=dstI, mem=mem_of(I, idx), old=old)
         return None
     return model
